@@ -34,8 +34,9 @@ fn shapes(r: &mut Rng, it: usize, big: usize) -> gen::Shape {
 pub fn run_c03(o: &mut Out, tier: &str, seed: u64) {
     let mut r = Rng::new(seed);
     let (n, big) = if tier == "thorough" { (6000, 2000) } else { (700, 300) };
-    for it in 0..n {
-        let s = shapes(&mut r, it, big); let tx = gen::tx_of(&mut r, &s);
+    let sweep = gen::sweep_shapes(); let ns = sweep.len(); o.stat_n("tx.shape-sweep", ns as u64);
+    for it in 0..n + ns {
+        let s = if it < ns { sweep[it].clone() } else { shapes(&mut r, it - ns, big) }; let tx = gen::tx_of(&mut r, &s);
         o.stat(&format!("tx.v{}.rct{}.coinbase{}", s.version, if s.version == 1 || s.nin == 0 { -1 } else { gen::rct_num(s.rct) as i32 }, s.all_coinbase || s.coinbase_first));
         o.op(format!("c03_tx {}", desc::tx_desc(&tx)), true);
         if it % 6 == 0 { let nh = if it % 60 == 0 { big / 4 } else { r.below(6) as usize }; let b = gen::block(&mut r, nh); o.stat("block"); o.op(format!("c03_block {}", desc::block_desc(&b)), true); }
@@ -48,8 +49,9 @@ pub fn run_c03(o: &mut Out, tier: &str, seed: u64) {
 pub fn run_c05(o: &mut Out, tier: &str, seed: u64) {
     let mut r = Rng::new(seed);
     let n = if tier == "thorough" { 8000 } else { 900 };
-    for it in 0..n {
-        let s = shapes(&mut r, it, 100); let tx = gen::tx_of(&mut r, &s); let b = serialize(&tx);
+    let sweep = gen::sweep_shapes(); let ns = sweep.len(); o.stat_n("id.shape-sweep", ns as u64);
+    for it in 0..n + ns {
+        let s = if it < ns { sweep[it].clone() } else { shapes(&mut r, it - ns, 100) }; let tx = gen::tx_of(&mut r, &s); let b = serialize(&tx);
         let res = o.op(format!("c05_txid {}", hex(&b)), true);
         // the identifier of the DESCRIBED transaction (struct built field by field, never through the library's serialiser)
         // against the by-the-book bytes and id formula of Spec/Wire: an encoder slip cannot hide behind its own output
